@@ -26,9 +26,12 @@ def package(spec):
     return mkstate([('r%d' % i, SCHEMAS[k], res_rows(i, k, n)) for i, (k, n) in enumerate(spec)])
 
 
+TWICE = [False]
+
+
 def run_step(st, *steps):
     try:
-        return 'ok', core.materialise(core.from_state(st), *steps, via='results_raw')
+        return 'ok', core.materialise(core.from_state(st), *steps, via='results_raw', twice=TWICE[0])
     except core.CaseTimeout:
         raise
     except Exception as e:
@@ -65,7 +68,14 @@ def compare(label, proc, out, exp_names, exp_rows, exp_fields=None):
 
 
 def check(case):
-    return globals()['check_' + case['proc']](case)
+    TWICE[0] = bool(case.get('rerun'))
+    try:
+        v, o, n = globals()['check_' + case['proc']](case)
+    finally:
+        TWICE[0] = False
+    if case.get('rerun'):
+        v = [('rerun-' + sg, 'second execution of the same Flow object: ' + what) for sg, what in v]
+    return v, o, n
 
 
 def check_concat(case):
@@ -338,6 +348,14 @@ def cases(tier):
                     for to_end in (False, True):
                         for which in ('copy', 'original'):
                             out.append({'proc': 'dup_then', 'pkg': spec, 'idx': idx, 'to_end': to_end, 'which': which})
+            if n <= 2:
+                # the same step objects executed a second time
+                for lo in range(n):
+                    for hi in range(lo, n):
+                        out.append({'proc': 'concat', 'pkg': spec, 'lo': lo, 'hi': hi, 'mapping': 'merge', 'rerun': True})
+                for idx in range(n):
+                    out.append({'proc': 'duplicate', 'pkg': spec, 'idx': idx, 'to_end': False, 'batch': 1000, 'rerun': True})
+                out.append({'proc': 'delete', 'pkg': spec, 'sel': 'r0', 'rerun': True})
             sels = ['r0', ['r0', 'r%d' % (n - 1)], n - 1, -1, 'r[01]', [], 'r.*']
             for sel in sels:
                 out.append({'proc': 'delete', 'pkg': spec, 'sel': sel})
